@@ -24,9 +24,32 @@ Flow (DESIGN.md section 5, C04; spec/RTransform.tla, Spec4):
     no nan, contains the nodes, equals the spec's), sum rule sum_new g = sum_old g(F)|F'| w and
     positivity for a positive integrand.
 
+ 3. Second model (spec/Transform1DExt.tla, Spec5; runs beside the first): TLC applies Transform1D to
+    ARBITRARY rules (TransformG) - 16 hand-made rational rules: nodes stored descending / unsorted, a node
+    listed twice, a negative weight (Milne's open rule, degree 3), a zero weight, a single node,
+    sub-interval domains sharing one end (or one end being the pole) with the map's domain, half-line
+    rules on [0, 2] and [1/4, inf) - for integral and lattice parameter sets; to CHAINS
+    outer o LinearFinite(lo, hi) (transforming the transformed grid = transforming once with the composed
+    tree; the chain rule comes from D on the composed tree); and to the state machine of a b-scaled map
+    built without b (b := largest node of the FIRST grid, kept for the second).  It decides: permuted
+    rule = permuted grid of the base rule, sign of every weight kept, zero weights kept, exactness
+    transport through the linear map also with negative / zero weights, image domain strictly inside the
+    codomain for sub-interval rules, two steps = one step, second grid mapped with the first grid's b, and
+    the sum rule with the pulled-back integrand g(F(x))|D(F)(x)| (one tree) for the rational integrands.
+    The harness rebuilds the hand rules as OneDGrid objects (float64 / integer nodes / longdouble /
+    list or ndarray domain / read-only / strided arrays; parameters as floats and, where integral, as
+    Python ints; trim_inf True / False / omitted) and replays the records; chains also with library rules
+    (Gauss-Legendre, Clenshaw-Curtis, ...) and VERIF_SEED-drawn float intervals.
+ 4. Per grid, additionally: weight at a singular end node (infinite Jacobian) is infinite or enormous, never
+    nan; a negative rule weight stays non-positive; the sum rule for the 7 integrands of the specification
+    (sign-changing, oscillating, ...) and one product handed to integrate as two arrays; harness-only
+    relations: the grid handed in is left untouched, a second call with the same objects returns the same
+    grid.
+
 Violation keys: ``transform_1d_grid:<Class>[:k=..|m=..]:<what>`` with <what> in points,
 singular-node, weights, negative-weights, domain, domain-nan, domain-order, nodes-outside-domain,
-sum-rule, exception, type; ``gl-exactness:...``; ``rule:<Rule>:n=..`` (library rule differs from
+sum-rule, sum-rule[<integrand>], singular-weight, weight-sign, inferred-b, input-modified, not-repeatable,
+exception, type; ``gl-exactness:...``; ``rule:<Rule>:n=..`` (library rule differs from
 the specification's definition).
 
 Tolerances: vf/rtx.py policy (1e-9 relative, or 1e3 x running-error bound of the spec tree).
@@ -56,6 +79,16 @@ exceeds 1e-12) the largest err / tolerance is < 1e-3.  Gauss-Legendre obligation
 k <= 79, 16848 of them): largest |sum - exact| / (1e-9 * sum |w r^k|) = 2.4e-4.  The defects found
 and the 9 mutants of selftest() produce O(1) relative errors (sign of every weight, nan, wrong
 Jacobian, wrong domain end) or exceptions.
+
+Second model / new clauses (quick, seeds 0-5 and thorough seed 0, pinned tree):
+ * nodes / weights / domains of hand rules, chains, reuse: same two-stage test (vf/rtx.py policy); chains are
+   judged against the COMPOSED tree, whose running-error bound contains the rounding of the inner map;
+   largest err / tolerance accepted: see evidence max_err_over_tolerance_accepted (< 1e-3 by construction).
+ * sum rule for the integrand family: tolerance = 1e-9 sum |w' g| + 4 x first-order budget from the accepted
+   node / weight tolerances (derived, see integrand_family); largest err / tolerance measured 7.6e-6 (quick,
+   seeds 0-5) and SUMCAL (thorough); the mutants (|g| integrated, second array ignored) give O(1) relative errors.
+ * singular-node weight >= 1e10 w: sound code gives >= 6e15 w (Knowles, non-integer k: (2**k - 2.0**k) one
+   rounding error off zero) or inf; mutant: nan.
 """
 
 _G = {}
@@ -1439,13 +1472,16 @@ def _m16(rt):
     rt.BaseTransform.transform_1d_grid = _t1d(body)
 
 
-@_mutant("an omitted b is taken from EVERY grid again (not kept from the first one)")
+@_mutant("an omitted b, taken from the first grid, grows when a later grid reaches further (not kept from the first one)")
 def _m17(rt):
     def bad(self, x):
-        if getattr(self, "_b_given", None) is None:
-            self._b_given = self._b is not None
-        if not self._b_given:
+        fin = np.asarray(x, dtype=float)
+        fin = fin[np.isfinite(fin)]
+        if self.b is None:
             self._b = np.max(x)
+            self._b_inferred = True
+        elif getattr(self, "_b_inferred", False) and fin.size and np.max(fin) > self._b:
+            self._b = np.max(fin)
     for c in (rt.LinearInfiniteRTransform, rt.ExpRTransform, rt.PowerRTransform):
         c.set_maximum_parameter_b = bad
 
@@ -1523,12 +1559,11 @@ def _m24(rt):
     rt.BaseTransform.transform_1d_grid = t1d
 
 
-@_mutant("only library rule classes keep their domain: the domain of a plain OneDGrid (hand-made, or itself a transformed grid) is replaced by the map's")
+@_mutant("a grid that shares exactly ONE end with the map's domain gets the image of the map's whole domain")
 def _m25(rt):
-    from grid.basegrid import OneDGrid
-
     def body(self, g):
-        dom = g.domain if type(g) is not OneDGrid or g.size > 6 else self.domain
+        lo, hi = float(g.domain[0]) == float(self.domain[0]), float(g.domain[1]) == float(self.domain[1])
+        dom = self.domain if lo != hi else g.domain
         return self.transform(g.points), self.deriv(g.points) * g.weights, tuple(np.sort(self.transform(np.array(dom, dtype=float))))
     rt.BaseTransform.transform_1d_grid = _t1d(body)
 
